@@ -415,6 +415,81 @@ func runC16(o *Out, rng *Rng, tier string, replay string) {
 		}
 		o.AddCase(List(coq), stat["drops_while_open"] > 0 && (stat["snapshot_reads"] > 0 || stat["batches_with_intermediate_flush"] > 0), ops)
 	}
+	// a table keeps its contents over close and reopen also when, in between, somebody else's attempt to create a
+	// table of that name FAILED: a second LevelDB on the same folder (the first holds the lock), or the same name
+	// spelt as a path ("./name") in the same instance
+	c16FailedCreates(o, rng.Fork(), filepath.Join(wd, "fc"))
 	o.FlushCases("C16", "From Coq Require Import ZArith List.\nFrom Flap Require Import Model.DB Run.RunDB.\nImport ListNotations.\nOpen Scope Z_scope.",
 		"list (list dop)", "d_mismatches 0%nat", 16)
+}
+
+
+func c16FailedCreates(o *Out, r *Rng, dir string) {
+	for k := 0; k < 6; k++ {
+		d := filepath.Join(dir, fmt.Sprintf("d%02d", k))
+		os.RemoveAll(d)
+		os.MkdirAll(d, 0o755)
+		first := db.NewLevelDB(d)
+		name := []string{"songs", "t", "Bands"}[k%3]
+		other := name + "2"
+		want := map[string][]byte{}
+		t1, err := first.CreateTable(name)
+		t2, err2 := first.CreateTable(other)
+		if err != nil || err2 != nil {
+			first.Release()
+			continue
+		}
+		for i := 0; i < r.Range(1, 12); i++ {
+			key := fmt.Sprintf("k%03d", r.Intn(500))
+			v := make([]byte, r.Range(0, 40))
+			for j := range v {
+				v[j] = byte(r.Intn(256))
+			}
+			t1.Put(key, &blob{v})
+			want[key] = v
+		}
+		t2.Put("x", &blob{[]byte("y")})
+		how := "a second LevelDB on the same folder"
+		var createErr error
+		if k%2 == 0 {
+			second := db.NewLevelDB(d)
+			_, createErr = second.CreateTable(name)
+			second.Release()
+		} else {
+			how = "the same name spelt ./" + name + " in the same instance"
+			_, createErr = first.CreateTable("./" + name)
+		}
+		o.Count("failed_creates_of_an_open_table")
+		rep := map[string]interface{}{"op": "failed create of an open table", "how": how, "table": name, "keys": len(want)}
+		if createErr == nil {
+			o.Count("create_of_an_open_table_succeeded") // not what this probe is about
+			first.Release()
+			continue
+		}
+		bad := ""
+		if err := first.CloseTable(name); err != nil {
+			bad = fmt.Sprintf("CloseTable: %v", err)
+		} else if re, err := first.OpenTable(name); err != nil {
+			bad = fmt.Sprintf("OpenTable after close: %v", err)
+		} else {
+			for key, v := range want {
+				var got blob
+				if err := re.Get(key, &got); err != nil || !bytes.Equal(got.b, v) {
+					bad = fmt.Sprintf("key %q reads back %v (err %v), written %v", key, got.b, err, v)
+					break
+				}
+			}
+		}
+		if bad == "" {
+			var got blob
+			if err := t2.Get("x", &got); err != nil || string(got.b) != "y" {
+				bad = fmt.Sprintf("the other table lost its contents: %v %v", got.b, err)
+			}
+		}
+		if bad != "" {
+			o.Fail(MonitorFailure{Property: "C16", Signature: "table-lost-after-a-failed-create-of-the-same-name", What: fmt.Sprintf("table %q with %d keys; CreateTable of that name through %s failed (%v) as it should; after close and reopen: %s", name, len(want), how, createErr, bad), Replay: rep})
+		}
+		first.Release()
+		os.RemoveAll(d)
+	}
 }
